@@ -15,7 +15,9 @@ def families():
                      cat={"r1": attr("p1", "far", prev="p1"), "r2": attr("p1", "far", prev="p1"), "r3": attr("p1", "far", prev="p1"), "r4": attr("p1", "far", prev="p1"),
                           "s1": attr("app", "far"), "s2": attr("app", "far"), "s3": attr("app", "far"), "s4": attr("app", "far")}),
         "clockless": dict(peers=P[:2], enabled=BASIC + ["CleanTick", "Restart"],
-                          cat={"b1": attr("app", "far", clockless=True), "b2": attr("p1", "p2", prev="p1", clockless=True)}),
+                          cat={"b1": attr("app", "far", clockless=True), "b2": attr("p1", "p2", prev="p1", clockless=True),
+                               # two seconds of lifetime counted by the age block alone: every millisecond in the node must count as one
+                               "b3": attr("p1", "far", prev="p1", clockless=True, life="short")}),
     }
 
 
